@@ -7,7 +7,7 @@ writer.write_multi(append=True, write_fmd=False) -> [partition_on_columns] -> ma
 import ast
 
 from ..model import (AnalysisError, callee, norm, src, walk_no_nested, iter_child_stmts, kwarg,
-                     const_value, dotted)
+                     const_value, dotted, return_values)
 from ..cfg import CFG
 from .. import effects as fx
 
@@ -132,14 +132,16 @@ def fresh_part_rule(ctx, rule):
     ctx.ob(rule, 'writer.write_multi:i_offset-is-find_max_part-when-appending', ok,
            'definitions: %s' % by_branch, wr.loc(g))
     parts = [s for s in iter_child_stmts(g.body) if isinstance(s, ast.Assign) and norm(s.targets[0]) == 'part']
-    ok = len(parts) == 1 and norm(parts[0].value) == "'part.%i.parquet' % (i + i_offset)"
+    # (what goes into the name, whichever way the text is put together: %-format or f-string)
+    from ..canon import fmt_parts
+    ok = len(parts) == 1 and fmt_parts(parts[0].value) == ('part.{}.parquet', ['i + i_offset'])
     loops = [s for s in g.body if isinstance(s, ast.For) and 'enumerate(data)' in norm(s.iter)]
     ok = ok and len(loops) == 1 and norm(loops[0].iter) == 'enumerate(data)' and norm(loops[0].target).startswith('(i,')
     ctx.ob(rule, 'writer.write_multi:part-name-is-running-index-plus-offset', ok,
            norm(parts[0]) if parts else 'no part name', wr.loc(g))
     fm = wr.func('find_max_part')
-    rets = [s for s in iter_child_stmts(fm.body) if isinstance(s, ast.Return)]
-    texts = sorted(norm(r.value) for r in rets)
+    rets = return_values(fm)
+    texts = sorted(norm(r) for r in rets)
     src_ok = any(norm(s) == 'pids = part_ids(row_groups)' for s in fm.body)
     def max_plus_one(e):
         if isinstance(e, ast.BinOp) and isinstance(e.op, ast.Add):
@@ -149,13 +151,15 @@ def fresh_part_rule(ctx, rule):
                     return True
         return False
     src_ok = src_ok or any('part_ids(row_groups)' in norm(s) for s in fm.body)
-    ok = src_ok and any(max_plus_one(r.value) for r in rets) and all(
-        max_plus_one(r.value) or norm(r.value) == '0' for r in rets)
+    ok = src_ok and any(max_plus_one(r) for r in rets) and all(
+        max_plus_one(r) or norm(r) == '0' for r in rets)
     ctx.ob(rule, 'writer.find_max_part:next-number-is-max-existing-plus-one', ok,
            'returns %s (a count or the maximum itself can collide with an existing part file)' % texts, wr.loc(fm))
     pi = api.func('part_ids')
     s = src(pi)
-    ok = "int(pid_path[0]['i'])" in s and 'PART_ID.match(path)' in s and 'rg.columns[0].file_path for rg in row_groups' in s
+    # (the number is group 'i' of the match, whether the (match, path) pair is indexed or unpacked)
+    import re as _re
+    ok = bool(_re.search(r"int\(\w+(\[0\])?\['i'\]\)", s)) and 'PART_ID.match(path)' in s and 'rg.columns[0].file_path for rg in row_groups' in s
     ctx.ob(rule, 'api.part_ids:ids-parsed-from-every-referenced-path', ok,
            'the id set must come from all referenced file paths', api.loc(pi))
     pid = ctx.repo['api'].assigns.get('PART_ID')
